@@ -25,7 +25,7 @@ LEVEL = "exploration"
 EXHAUSTIVE = False
 TIERS = {
     "quick": {"runs": 4000, "budget_s": 150, "chunk": 8, "max_shrink": 3, "shrink_each_s": 15, "shrink_budget_s": 50},
-    "thorough": {"runs": 40000, "budget_s": 3000, "chunk": 16, "max_shrink": 6, "shrink_each_s": 30, "shrink_budget_s": 300},
+    "thorough": {"runs": 160000, "budget_s": 3300, "chunk": 16, "max_shrink": 6, "shrink_each_s": 30, "shrink_budget_s": 300},
 }
 CHILD_TIMEOUT = {"quick": 40, "thorough": 90}
 RULE = ("one evaluation = one binary-route operation (stream, address list or verdict) compared with the assembly route on the harness's own "
@@ -89,6 +89,28 @@ def make_case(rng, with_faults):
         shape["obj"] = "real:" + name
         allsec, code = _sections_of(elf)
         meta = [{"name": s, "raw": False, "data": s not in code} for s in allsec]
+    elif r0 < 0.17:
+        src, meta = gen.gen_asm_source_32(rng)
+        elf = gen.assemble(src, bits=32)
+        if elf is None:
+            return None
+        shape["obj"] = "as32:1sec:text"
+        allsec, code = [".text"], [".text"]
+    elif r0 < 0.22:
+        members = []
+        meta = []
+        for _ in range(rng.randrange(2, 4)):
+            msrc, mmeta = gen.gen_asm_source(rng, random_bytes_p=0.2)
+            m = gen.assemble(msrc)
+            if m is not None:
+                members.append(m)
+                meta += [x for x in mmeta if x["name"] not in {y["name"] for y in meta}]
+        elf = gen.make_archive(members) if members else None
+        if elf is None:
+            return None
+        shape["obj"] = f"archive:{len(members)}members"
+        allsec = [m["name"] for m in meta]
+        code = [m["name"] for m in meta if not m["data"]]
     else:
         src, meta = gen.gen_asm_source(rng, random_bytes_p=rng.choice((0.0, 0.3, 0.6, 1.0)))
         elf = gen.assemble(src)
@@ -105,6 +127,8 @@ def make_case(rng, with_faults):
         code = [m["name"] for m in meta if not m["data"]]
     names = gen.pick_names(rng)
     OBJ, RULE = names["bin"], names["rule"]
+    if shape["obj"].startswith("archive"):
+        OBJ = rng.choice(["lib.a", "libs/my lib.a", OBJ])
     files[OBJ] = elf
     data = [s for s in allsec if s not in code]
     # ---- the sections list, in every shape the property names
